@@ -1735,7 +1735,48 @@ def propagate_record_locals(repo, f):
             continue
         vals = dict(zip(fields, rec.args))
         vals.update({k.arg: k.value for k in rec.keywords})
-        if set(vals) != set(fields) or not all(_cheap(v) or _const(v) for v in vals.values()):
+        if set(vals) != set(fields):
+            continue
+        if not all(_cheap(v) or _const(v) for v in vals.values()):
+            # name the arguments that are not plain names / paths first (evaluated where they were, in argument order), then read fields
+            # through those names on the next round
+            if any(isinstance(x, (ast.Yield, ast.YieldFrom, ast.Await, ast.NamedExpr, ast.Lambda)) for v in vals.values() for x in ast.walk(v)):
+                continue
+            owner = None
+            for n_ in ast.walk(f.node):
+                for fld in ("body", "orelse", "finalbody"):
+                    sub = getattr(n_, fld, None)
+                    if isinstance(sub, list) and any(x is st for x in sub):
+                        owner = sub
+                if isinstance(n_, ast.Try):
+                    for h in n_.handlers:
+                        if any(x is st for x in h.body):
+                            owner = h.body
+            if owner is None:
+                continue
+            pre = []
+            order = list(rec.args) + [k.value for k in rec.keywords]
+            names_ = {}
+            for fl, v in vals.items():
+                if not (_cheap(v) or _const(v)):
+                    names_[id(v)] = f"{t}__{fl}"
+            new_args, new_kws = [], []
+            for a_ in rec.args:
+                if id(a_) in names_:
+                    pre.append(ast.copy_location(ast.Assign(targets=[ast.Name(id=names_[id(a_)], ctx=ast.Store())], value=a_, lineno=st.lineno), st))
+                    new_args.append(ast.Name(id=names_[id(a_)], ctx=ast.Load()))
+                else:
+                    new_args.append(a_)
+            for k in rec.keywords:
+                if id(k.value) in names_:
+                    pre.append(ast.copy_location(ast.Assign(targets=[ast.Name(id=names_[id(k.value)], ctx=ast.Store())], value=k.value, lineno=st.lineno), st))
+                    new_kws.append(ast.keyword(arg=k.arg, value=ast.Name(id=names_[id(k.value)], ctx=ast.Load())))
+                else:
+                    new_kws.append(k)
+            rec.args, rec.keywords = new_args, new_kws
+            i_ = next(j for j, x in enumerate(owner) if x is st)
+            owner[i_:i_] = pre
+            changed = True
             continue
         # the arguments must keep their value between the construction and the reads: plain names bound once / parameters / paths on them
         stable = True
